@@ -1,5 +1,7 @@
 import IsoMdl.Lemmas.Cbor
 import IsoMdl.Model.Wire
+import IsoMdl.Model.WireSchemas
+import IsoMdl.Lemmas.Schema
 /-
 C16 — Wire structures round-trip and have a stable encoding.
 Layer 1 (all values of the CBOR data model): `dec (enc v) = v`, `enc` injective, fixed point.
@@ -134,5 +136,40 @@ theorem C16_errorCode_rejects_positive (n : Int) (h : 0 < n) : DocumentErrorCode
 example : SessionData.fromCbor (SessionData.toCbor { data := some [1, 2], status := some .SessionTermination })
     = some { data := some [1, 2], status := some .SessionTermination } := by decide
 example : (CoseKey.ec2 .P256 [1] (.value [2])).WF := by simp [CoseKey.WF]
+
+/-! ### Layer 3: every wire structure, through the generic schema model (Model/Schema.lean) -/
+section Schemas
+open IsoMdl.Schema IsoMdl.WireSchemas
+
+/-- every named wire schema is well-formed (pairwise distinct field keys at every level) -/
+theorem C16_wire_schemas_wellformed : all.all (fun p => wfs p.2) = true := by decide +kernel
+
+/-- the schemas whose untagged alternatives are all decided by the outermost kind: all but
+DeviceEngagement (its retrieval methods are told apart by a literal transport type) -/
+theorem C16_wire_fixed_point_scope : (all.filter fun p => unions p.2).length = 16 ∧ all.length = 17 := by decide +kernel
+
+/-- ENCODING IS A FIXED POINT, for EVERY item of EVERY such wire structure (DeviceRequest and
+Response with their nested documents, items, MSO, validity and key info, COSE keys, session
+messages, handover): decoding what the typed decode-and-re-encode emitted and emitting again
+reproduces the same item — any field order, unknown entries, explicit nulls and unsorted maps on
+the way in. -/
+theorem C16_wire_fixed_point (name : String) (s : Sch) (hs : (name, s) ∈ all) (hu : unions s = true)
+    (c c' : Cbor) (h : norm s c = some c') : norm s c' = some c' := by
+  have hw : wfs s = true := (List.all_eq_true.mp C16_wire_schemas_wellformed) (name, s) hs
+  exact norm_idem s c c' hw hu h
+
+/-- … and on the level of bytes: re-encoding the decoded re-encoding gives the same bytes -/
+theorem C16_wire_bytes_fixed_point (name : String) (s : Sch) (hs : (name, s) ∈ all) (hu : unions s = true)
+    (c c' : Cbor) (h : norm s c = some c') (hwf : Cbor.wf c') :
+    (decodeAll (enc c')).bind (norm s) = some c' := by
+  rw [decodeAll_enc c' hwf]
+  exact C16_wire_fixed_point name s hs hu c c' h
+
+/-- non-vacuity: a SessionData with an unknown entry, an explicit null and fields out of order is
+normalised, and the result is its own normal form -/
+example : (norm sessionData (.map [(tx "zz", .uint 1), (tx "status", .uint 20), (tx "data", .simple 22)])
+    == some (.map [(tx "status", .uint 20)])) = true := by decide +kernel
+example : (norm sessionData (.map [(tx "status", .uint 20)]) == some (.map [(tx "status", .uint 20)])) = true := by decide +kernel
+end Schemas
 
 end IsoMdl.Wire
